@@ -82,11 +82,15 @@ fn main() {
     }
     infra::install_panic_hook();
     let ctx = Ctx::new(&id, tier, seed, replay);
-    let (level, rule) = match checks::run(&ctx) {
-        Some(x) => x,
-        None => {
+    let (level, rule) = match std::panic::catch_unwind(std::panic::AssertUnwindSafe(|| checks::run(&ctx))) {
+        Ok(Some(x)) => x,
+        Ok(None) => {
             eprintln!("MACHINERY: unknown property id {}", id);
             std::process::exit(2);
+        }
+        Err(_) => {
+            infra::report_abort(&ctx);
+            ("exploration", "the check body aborted before completing; see violations / machinery_errors")
         }
     };
     let code = ctx.finish(level, rule);
